@@ -55,7 +55,7 @@ def cmd_check(prop, tier, seed):
         from . import selftest as st
         if not unlisted:
             # the self-test only matters for a verdict of 0: a violation found on the tree is reported as such
-            selftest = st.run(prop, tier, seed)
+            selftest = st.run(prop, tier, seed, base_keys={i.key() for i in rep.violations()})
             if selftest.get('missed'):
                 raise AnalysisError('self-test: {} control mutant(s) not detected: {}'.format(
                     len(selftest['missed']), ', '.join(selftest['missed'][:5])))
